@@ -1,10 +1,14 @@
 (* Property C15 — grid='inf' constraints guarantee satisfaction between grid points.
    Statements only; proofs in Proofs/InfProofs.v.
-   PARTIAL: proved for the conversion and the Bernstein certificate of one polynomial (hence for
-   constraints affine in the states, whose coefficients are relayed linearly); the BSpline product
-   algebra used for non-affine constraints is covered by the check's refined-sampling oracle only. *)
+   Proved for every constraint that is polynomial in the states and their inf_der derivatives (sums,
+   differences, products, numbers; any degree): the Bernstein-form operations of Mech/Bern.v represent
+   the polynomial operations exactly and coefficients below (above) the bound keep the expression below
+   (above) it on the whole integrator step.  PARTIAL in one respect: that rockit refuses expressions
+   that are not polynomial, and schemes without a degree-4 step polynomial, is decided by the check's
+   oracle on rockit, not by a theorem. *)
 From Coq Require Import ZArith QArith Qcanon List Lia Bool.
-From RV Require Import Base.Num Base.Vec Mech.Inf Inst Proofs.QcInst Proofs.InfProofs.
+From RV Require Import Base.Num Base.PyList Base.Vec Base.Poly Expr Ocp Rows Mech.Grid Mech.Sampling Mech.Inf Mech.Bern
+     Inst Proofs.QcInst Proofs.InfProofs Proofs.BernProofs.
 Import ListNotations.
 Local Open Scope nat_scope.
 
@@ -37,6 +41,86 @@ Proof.
 Qed.
 Print Assumptions C15_coefficients_bound_the_polynomial.
 
+(* ---- constraints polynomial in the states: the BSpline operators of rockit/splines *)
+
+(* product (degree m+n), sum and difference (after raising to the common degree), degree elevation:
+   each represents the corresponding operation on the polynomials, identically in s *)
+Theorem C15_bernstein_product_exact :
+  forall (F : Type) (OF : Ops F), FieldLaws OF -> @Char0 F OF ->
+  forall (a b : list F) (s : F), a <> [] -> b <> [] ->
+    bpoly (bmul a b) s = bpoly a s *! bpoly b s /\ length (bmul a b) = length a + length b - 1.
+Proof. intros F OF Fl C a b s Ha Hb. exact (conj (bpoly_bmul Fl C a b s Ha Hb) (bmul_length a b Ha Hb)). Qed.
+Print Assumptions C15_bernstein_product_exact.
+
+Theorem C15_bernstein_sum_exact :
+  forall (F : Type) (OF : Ops F), FieldLaws OF -> @Char0 F OF ->
+  forall (a b : list F) (s : F), a <> [] -> b <> [] ->
+    bpoly (badd a b) s = bpoly a s +! bpoly b s /\ bpoly (bsub a b) s = bpoly a s -! bpoly b s /\
+    length (badd a b) = Nat.max (length a) (length b) /\ length (bsub a b) = Nat.max (length a) (length b).
+Proof.
+  intros F OF Fl C a b s Ha Hb.
+  exact (conj (bpoly_badd Fl C a b s Ha Hb) (conj (bpoly_bsub Fl C a b s Ha Hb)
+        (conj (badd_length Fl C a b Ha Hb) (bsub_length Fl C a b Ha Hb)))).
+Qed.
+Print Assumptions C15_bernstein_sum_exact.
+
+(* the re-interpreted constraint expression represents the expression evaluated on the represented
+   state polynomials (and their time derivatives), for every expression *)
+Theorem C15_reinterpretation_exact :
+  forall (F : Type) (OF : Ops F), FieldLaws OF -> @Char0 F OF ->
+  forall (X : nat -> list F) (h : F) (xv dxv : nat -> F) (s : F),
+    (forall j, X j <> []) -> (forall j, bderiv (X j) <> []) ->
+    (forall j, bpoly (X j) s = xv j) -> (forall j, bpoly (bderiv (X j)) s /! h = dxv j) -> h <> o0 ->
+    forall e, bpoly (bern_of X h e) s = beval xv dxv e.
+Proof. intros F OF Fl C X h xv dxv s H1 H2 H3 H4 H5 e. exact (proj2 (bern_of_correct Fl C X h xv dxv s H1 H2 H3 H4 H5 e)). Qed.
+Print Assumptions C15_reinterpretation_exact.
+
+(* the certificate for every degree: coefficients below c keep the polynomial below c on [0,1] *)
+Theorem C15_coefficients_bound_any_degree :
+  forall (F : Type) (OF : Ops F), FieldLaws OF ->
+  forall (le : F -> F -> Prop),
+    (forall a, le a a) ->
+    (forall a b c d, le a b -> le c d -> le (a +! c) (b +! d)) ->
+    (forall a b c, le o0 c -> le a b -> le (a *! c) (b *! c)) ->
+    (forall a b, le o0 a -> le o0 b -> le o0 (a *! b)) ->
+    le o0 o1 ->
+  forall (b : list F) (c s : F),
+    b <> [] -> le o0 s -> le s o1 ->
+    (Forall (fun v => le v c) b -> le (bpoly b s) c) /\ (Forall (fun v => le c v) b -> le c (bpoly b s)).
+Proof.
+  intros F OF Fl le H1 H3 H4 H5 H6 b c s Hb H0 Hs.
+  exact (conj (bernstein_bound_any_degree Fl le H1 H3 H4 H5 H6 b c s Hb H0 Hs)
+              (bernstein_lower_bound_any_degree Fl le H1 H3 H4 H5 H6 b c s Hb H0 Hs)).
+Qed.
+Print Assumptions C15_coefficients_bound_any_degree.
+
+(* the property for the model's rows: if all rows generated for a polynomial constraint on integrator
+   step (k,l) hold, the constraint holds at every time tau = s*h of that step, with every state
+   replaced by its degree-4 step polynomial and every inf_der by that polynomial's time derivative *)
+Theorem C15_polynomial_constraint_holds_between_grid_points :
+  forall (F : Type) (OF : Ops F), FieldLaws OF -> @Char0 F OF ->
+  forall (le : F -> F -> Prop),
+    (forall a, le a a) ->
+    (forall a b c d, le a b -> le c d -> le (a +! c) (b +! d)) ->
+    (forall a b c, le o0 c -> le a b -> le (a *! c) (b *! c)) ->
+    (forall a b, le o0 a -> le o0 b -> le o0 (a *! b)) ->
+    le o0 o1 ->
+  forall (L : mlists F) (c : bconstr) (k l : nat),
+    let step := k * L_M L + l in
+    let h := (nth (S k) (L_cg L) o0 -! nth k (L_cg L) o0) /! of_nat (L_M L) in
+    length (nth step (L_poly L) []) = 5 -> h <> o0 ->
+    Forall (fun r => le (rw_h r) o0) (infp_rows_step L c k l) ->
+    forall s, le o0 s -> le s o1 ->
+      let v := beval (fun j => polyval (state_coeffs L step j) (s *! h))
+                     (fun j => polyval (pderiv (state_coeffs L step j)) (s *! h)) (bc_expr c) in
+      let b := eval_control L (Z.of_nat k) (bc_bound c) in
+      if bc_lower c then le b v else le v b.
+Proof.
+  intros F OF Fl C le H1 H3 H4 H5 H6 L c k l.
+  exact (infp_rows_step_sufficient Fl C le H1 H3 H4 H5 H6 L c k l).
+Qed.
+Print Assumptions C15_polynomial_constraint_holds_between_grid_points.
+
 (* with the step length used for the rescaling before the fix (T/N/M instead of the actual step
    length) the certificate does not cover a longer step: x(tau) = tau on a step of length 2/3
    rescaled with 1/2 has coefficients <= 1/2 although x(2/3) = 2/3 (finding F12, fixed) *)
@@ -56,3 +140,12 @@ Proof.
   - intros a b c d H1 H2. apply Qcplus_le_compat; assumption.
   - intros a b c H1 H2. apply Qcmult_le_compat_r; assumption.
 Qed.
+
+(* non-vacuity of the product algebra: x = s (degree 2 coefficients [0; 1/2; 1]); x*x - x has Bernstein
+   coefficients (degree 4) all <= 0, and the rows  coefficient - 0 <= 0  hold *)
+Definition qq (a : Z) (b : positive) : Qc := Q2Qc (Qmake a b).
+Example C15_product_nonvacuous :
+  let X := fun _ : nat => [qq 0 1; qq 1 2; qq 1 1] in
+  let b := @bern_of Qc QcOps X (qq 1 1) (BSub (BMul (BX 0) (BX 0)) (BX 0)) in
+  map this b = [0; -1#4; -1#3; -1#4; 0]%Q /\ forallb (fun v => Qle_bool (this v) 0) b = true.
+Proof. split; vm_compute; reflexivity. Qed.
